@@ -1,5 +1,5 @@
 #!/bin/bash
-# usage: cross_check.sh [jobs]  — run every check against every seeded variant (scratch copy of /repo + patch) and
+# usage: cross_check.sh [jobs] [id-regexp]  — run every check against every seeded variant (scratch copy of /repo + patch) and
 # print "<id> <kind> <property> | fired: ..." ; used to look for misses (own property silent) and cross-property false alarms.
 export GOFLAGS=-mod=mod GOPROXY=off GOSUMDB=off GOTOOLCHAIN=local GOWORK=off
 one() {
@@ -12,4 +12,4 @@ one() {
   echo "$id $kind $prop | fired: ${fired:-NONE}"
 }
 export -f one
-ls /verif/seeded | xargs -P ${1:-6} -n 1 bash -c 'one "$0"' | sort
+ls /verif/seeded | grep "${2:-.}" | xargs -P ${1:-6} -n 1 bash -c 'one "$0"' | sort
